@@ -58,6 +58,7 @@ var argAlphabet = []argT{
 	{"cid-rejected", sp(cidR.String())},
 	{"ipfs-path", sp("/ipfs/" + cidA.String())},
 	{"ipfs-subpath", sp("/ipfs/" + cidA.String() + "/sub/file.txt")},
+	{"ipfs-unresolvable", sp("/ipfs/" + cidA.String() + "/unresolvable")},
 	{"ipns", sp("/ipns/example.com")},
 	{"garbage", sp("zz-not-a-cid")},
 	{"missing", nil},
